@@ -120,6 +120,9 @@ def world():
         FD({float: None}), FD({1: int}), FD({True: int}), FD({int: []}), FD({complex: Pep484TowerComplex, bool: FakeBool}),
         FD({float: Pep484TowerFloat, complex: Pep484TowerComplex}), FD({str: int, bytes: str}), FD({float: 0, str: int, bytes: str}),
         {}, {int: str}, {float: complex}, FD({'a': int, 'b.c': str}), {'a': 1}, FD({int: CollideA}), FD({int: CollideB}),
+        # one entry of the tower spelled as the tower does, the OTHER conflicting with it (each must be checked on its own)
+        FD({float: Pep484TowerFloat, complex: int}), FD({float: str, complex: Pep484TowerComplex}),
+        FD({float: Pep484TowerFloat, complex: str, bool: FakeBool}),
         # anything else
         *w.objs,
     ]
